@@ -21,7 +21,7 @@ func init() {
 		MinNontriv:   2312,
 		Cases: func(tier string) int {
 			if tier == "thorough" {
-				return 8 + 20000
+				return 8 + 200000
 			}
 			return 8 + 1500
 		},
